@@ -94,6 +94,7 @@ def match_known(known, ob_name, cex):
         if e.get("cond"):
             try:
                 ns = dict(_SAFE)
+                ns.update({k: v for k, v in cex.get("facts", {}).items() if isinstance(v, (int, str, bool))})
                 ns.update(cex.get("model", {}))
                 if not eval(e["cond"], {"__builtins__": {}}, ns):
                     continue
@@ -114,6 +115,7 @@ def make_blocker(known, ob_name):
         if not e.get("cond"):
             return True
         ns = dict(_SAFE)
+        ns.update({k: v for k, v in cex.get("facts", {}).items() if isinstance(v, (int, str, bool))})
         for n, v in ctx.vars.items():
             import z3
             ns[n] = pathex.SBool(v) if z3.is_bool(v) else pathex.SInt(v)
